@@ -86,9 +86,21 @@ var liftNames = []string{}
 
 type flagSet struct {
 	optimize, basicLatin bool
+	// optGrammar: ast.Optimize (the -optimize-grammar pass) runs before the builder; it preserves the language
+	// (C09), so acceptance and consumed prefix must still be the reference's for the ORIGINAL grammar; the value
+	// may be regrouped and is not compared
+	optGrammar bool
 }
 
-var flagSets = []flagSet{{false, false}, {false, true}, {true, false}, {true, true}}
+var flagSets = []flagSet{{false, false, false}, {false, true, false}, {true, false, false}, {true, true, false},
+	{false, false, true}, {false, true, true}}
+
+func (f flagSet) name() string {
+	if f.optGrammar {
+		return f.flags().Variant() + "+optgrammar"
+	}
+	return f.flags().Variant()
+}
 
 func (f flagSet) flags() pvcase.Flags {
 	return pvcase.Flags{Optimize: f.optimize, BasicLatin: f.basicLatin}
@@ -345,6 +357,16 @@ func writeCases(file string, items []*item) (int, error) {
 	return total, f.Close()
 }
 
+func optimizeGrammar(g *ast.Grammar) (panicked string) {
+	defer func() {
+		if x := recover(); x != nil {
+			panicked = fmt.Sprint(x)
+		}
+	}()
+	ast.Optimize(g)
+	return ""
+}
+
 func build(g *ast.Grammar, set flagSet) (src []byte, err error) {
 	defer func() {
 		if x := recover(); x != nil {
@@ -385,12 +407,19 @@ func evaluate(cfg config, i int) (it *item) {
 	start := g.Rules[0].Name.Val
 	alpha := alphabet(r, g)
 	for _, set := range flagSets {
-		variant := set.flags().Variant()
+		variant := set.name()
 		header := func(detail string) string {
 			return fmt.Sprintf("# pvlower -seed %d, grammar %d, flag set %s (optimize=%t basicLatin=%t)\n# %s\n\n%s\n\n# AST\n%s\n",
 				cfg.seed, i, variant, set.optimize, set.basicLatin, strings.ReplaceAll(detail, "\n", "\n# "), it.text, it.dump)
 		}
-		src, err := build(pvpeg.Clone(g), set)
+		gg := pvpeg.Clone(g)
+		if set.optGrammar {
+			if msg := optimizeGrammar(gg); msg != "" {
+				it.fails = append(it.fails, outcome{"optimize-panic", variant + ": " + msg, name("optimize-panic", variant), header(msg)})
+				continue
+			}
+		}
+		src, err := build(gg, set)
 		if err != nil {
 			it.fails = append(it.fails, outcome{"build-error", variant + ": " + err.Error(), name("build-error", variant), header(err.Error())})
 			continue
@@ -541,7 +570,7 @@ func onlyErrors(errs []string, what string) bool {
 func compare(cfg config, it *item, results []string) *compared {
 	c := &compared{counts: map[string]int{}, values: map[string]int{}}
 	for _, b := range it.sets {
-		variant := b.set.flags().Variant()
+		variant := b.set.name()
 		failed := false
 		for j, ex := range b.expects {
 			id := b.first + j + 1
@@ -620,7 +649,7 @@ func compare(cfg config, it *item, results []string) *compared {
 			case !ex.ok:
 			case res.off != ex.end:
 				fail("prefix-differs", fmt.Sprintf("reference consumes %d bytes, generated parser %d", ex.end, res.off), actual)
-			case got != ex.val:
+			case got != ex.val && !b.set.optGrammar:
 				fail("value-differs", fmt.Sprintf("reference value %s, generated parser %s", ex.val, got), actual)
 			default:
 				kind, _, _ := strings.Cut(ex.val, " ")
